@@ -103,6 +103,10 @@ pub fn values(c: Class, w: usize) -> Vec<Vec<u8>> {
             v.push((-0.0f64).to_be_bytes().to_vec());
             v.push(123.456f64.to_be_bytes().to_vec());
             v.push(0x7ff0_0000_0000_0001u64.to_be_bytes().to_vec()); // signalling NaN
+            // doubles that are exactly a single with a long decimal expansion, extremes, subnormals, neighbours of 1
+            for x in [0.1f32 as f64, 0.3f32 as f64, (1.0f32 / 3.0) as f64, f32::MAX as f64, f32::MIN_POSITIVE as f64, 16_777_217.0, 0.1f64, f64::MAX, f64::MIN_POSITIVE, f64::EPSILON, 5e-324, 1.0 + f64::EPSILON, 1e15, 1e16, 1e21, 1e-7, 9007199254740993.0, -1.5] {
+                v.push(x.to_be_bytes().to_vec());
+            }
         }
         Class::Signed => {
             let mut m = vec![0xff; w];
